@@ -1,0 +1,171 @@
+/* This Source Code Form is subject to the terms of the Mozilla Public
+ * License, v. 2.0. If a copy of the MPL was not distributed with this
+ * file, You can obtain one at http://mozilla.org/MPL/2.0/. */
+
+//! Verification hooks. Only compiled with the `verif` cargo feature.
+//!
+//! Everything here is thread-local and inert until a harness switches it on,
+//! so a `verif` build behaves exactly like a normal build by default.
+
+use std::cell::{Cell, RefCell};
+
+/// How `VmGreenThread::maybe_gc` behaves on the current OS thread.
+#[derive(Clone, Debug, Default, PartialEq, Eq)]
+pub enum GcMode {
+    /// The VM's own pacing heuristic.
+    #[default]
+    Default,
+    /// Never collect.
+    Disabled,
+    /// One script byte is consumed per `maybe_gc` call; when the script is
+    /// exhausted `tail` is used forever.
+    ///
+    /// byte bit 0: when idle, start a cycle iff set.
+    /// byte bits 1-2: mark/sweep work budget for this call:
+    ///   0 = none, 1 = one object, 2 = a few objects, 3 = everything.
+    Scripted { script: Vec<u8>, tail: u8 },
+}
+
+pub enum GcDecision {
+    Default,
+    Skip,
+    Script(u8),
+}
+
+#[derive(Clone, Copy, Debug, Default)]
+pub struct Counters {
+    pub gc_calls: u64,
+    pub cycles_started: u64,
+    pub cycles_completed: u64,
+    pub objects_freed: u64,
+    pub bytes_freed: u64,
+    pub peak_heap_size: usize,
+    pub poisoned_hits: u64,
+}
+
+thread_local! {
+    static OPTIMIZER_OFF: Cell<bool> = const { Cell::new(false) };
+    static GC_MODE: RefCell<GcMode> = const { RefCell::new(GcMode::Default) };
+    static GC_POS: Cell<usize> = const { Cell::new(0) };
+    static QUARANTINE: Cell<bool> = const { Cell::new(false) };
+    static QUARANTINED: RefCell<Vec<usize>> = const { RefCell::new(Vec::new()) };
+    static COUNTERS: Cell<Counters> = const { Cell::new(Counters {
+        gc_calls: 0, cycles_started: 0, cycles_completed: 0, objects_freed: 0,
+        bytes_freed: 0, peak_heap_size: 0, poisoned_hits: 0 }) };
+}
+
+/// Restore the default behaviour, release quarantined objects, zero counters.
+pub fn reset() {
+    OPTIMIZER_OFF.with(|c| c.set(false));
+    GC_MODE.with(|m| *m.borrow_mut() = GcMode::Default);
+    GC_POS.with(|c| c.set(0));
+    QUARANTINE.with(|c| c.set(false));
+    release_quarantine();
+    COUNTERS.with(|c| c.set(Counters::default()));
+}
+
+/// Really free every object held in quarantine. Only call when no runtime that
+/// could still reference them is alive.
+pub fn release_quarantine() {
+    let list = QUARANTINED.with(|q| std::mem::take(&mut *q.borrow_mut()));
+    for p in list {
+        unsafe { crate::vm::verif_free_quarantined(p) };
+    }
+}
+
+/// Forget quarantined objects without freeing them (after a fault, when the
+/// heap may be inconsistent).
+pub fn leak_quarantine() {
+    QUARANTINED.with(|q| q.borrow_mut().clear());
+}
+
+pub fn set_optimizer_off(off: bool) {
+    OPTIMIZER_OFF.with(|c| c.set(off));
+}
+
+pub fn optimizer_off() -> bool {
+    OPTIMIZER_OFF.with(|c| c.get())
+}
+
+pub fn set_gc_mode(mode: GcMode) {
+    GC_MODE.with(|m| *m.borrow_mut() = mode);
+    GC_POS.with(|c| c.set(0));
+}
+
+pub fn set_quarantine(on: bool) {
+    QUARANTINE.with(|c| c.set(on));
+}
+
+pub fn quarantine_on() -> bool {
+    QUARANTINE.with(|c| c.get())
+}
+
+pub fn counters() -> Counters {
+    COUNTERS.with(|c| c.get())
+}
+
+fn bump(f: impl FnOnce(&mut Counters)) {
+    COUNTERS.with(|c| {
+        let mut v = c.get();
+        f(&mut v);
+        c.set(v);
+    });
+}
+
+pub(crate) fn quarantine_push(p: usize) {
+    QUARANTINED.with(|q| q.borrow_mut().push(p));
+}
+
+pub(crate) fn gc_decision(heap_size: usize) -> GcDecision {
+    bump(|c| {
+        c.gc_calls += 1;
+        if heap_size > c.peak_heap_size {
+            c.peak_heap_size = heap_size;
+        }
+    });
+    GC_MODE.with(|m| match &*m.borrow() {
+        GcMode::Default => GcDecision::Default,
+        GcMode::Disabled => GcDecision::Skip,
+        GcMode::Scripted { script, tail } => {
+            let pos = GC_POS.with(|c| {
+                let p = c.get();
+                c.set(p.saturating_add(1));
+                p
+            });
+            GcDecision::Script(script.get(pos).copied().unwrap_or(*tail))
+        }
+    })
+}
+
+pub(crate) fn note_cycle_started() {
+    bump(|c| c.cycles_started += 1);
+}
+
+pub(crate) fn note_cycle_completed() {
+    bump(|c| c.cycles_completed += 1);
+}
+
+pub(crate) fn note_freed(nbytes: usize) {
+    bump(|c| {
+        c.objects_freed += 1;
+        c.bytes_freed += nbytes as u64;
+    });
+}
+
+/// Called when the VM touches an object that the collector (or a dropped
+/// task) already reclaimed. Panics with a recognisable message.
+pub(crate) fn report_uaf(site: &str, kind: &str) -> ! {
+    bump(|c| c.poisoned_hits += 1);
+    panic!("VERIF-UAF site={site} kind={kind}");
+}
+
+/// Snapshot of one green thread, for invariants and evidence.
+#[derive(Clone, Copy, Debug, Default)]
+pub struct ThreadStats {
+    pub heap_size: usize,
+    pub live_objects: usize,
+    pub value_stack_len: usize,
+    pub call_depth: usize,
+    /// 0 = idle, 1 = marking, 2 = sweeping
+    pub gc_state: u8,
+}
